@@ -139,6 +139,8 @@ pub struct Pipe {
     pub realloc_gen: u64,
     pub max_read_window: usize,
     pub chunk_override: Option<Chunk>,
+    /// (event sequence number, total bytes delivered so far) for every delivery.
+    pub deliveries: Vec<(u64, usize)>,
 }
 
 #[derive(Debug)]
@@ -201,6 +203,15 @@ pub struct W {
     pub cancels: u64,
     /// Free-running counter a harness task may advance; gates can wait for it.
     pub counter: u64,
+    /// Sequence numbers at which the set of connections the server reads calls from changed
+    /// (accept, connection dropped, stream started, stream ended).
+    pub set_changes: Vec<u64>,
+    /// (sequence number, client-to-server pipe) of every accept.
+    pub accepts: Vec<(u64, usize)>,
+    /// (sequence number, pipe) of every dropped read half.
+    pub read_half_drops: Vec<(u64, usize)>,
+    /// Connection ids handed out by zlink for accepted connections.
+    pub conn_ids: Vec<usize>,
     /// First violation detected by an in-run invariant (class, message).
     pub fail: Option<(String, String)>,
     /// Human-readable description of the scenario (filled in when a sample / trace is wanted).
@@ -243,6 +254,10 @@ impl W {
             cancelled_this_poll: false,
             cancels: 0,
             counter: 0,
+            set_changes: Vec::new(),
+            accepts: Vec::new(),
+            read_half_drops: Vec::new(),
+            conn_ids: Vec::new(),
             fail: None,
             scenario: None,
             want_sample: trace,
@@ -478,6 +493,8 @@ impl W {
         pipe.delivered += n;
         self.bytes_moved += n as u64;
         self.ev("env.deliver", p as u64, n as u64);
+        let (sq, d) = (self.seq, self.pipes[p].delivered);
+        self.pipes[p].deliveries.push((sq, d));
         if let Some(w) = self.pipes[p].reader_waker.take() {
             w.wake();
         }
@@ -599,6 +616,9 @@ impl Drop for SimReadHalf {
         if let Ok(mut w) = self.world.try_borrow_mut() {
             w.pipes[self.pipe].reader_gone = true;
             w.ev("drop.read_half", self.pipe as u64, 0);
+            let sq = w.seq;
+            w.set_changes.push(sq);
+            w.read_half_drops.push((sq, self.pipe));
         }
     }
 }
@@ -856,9 +876,13 @@ impl Future for AcceptFut<'_> {
             let (c2s, s2c) = w.listener.backlog.pop_front().unwrap();
             w.listener.accepted += 1;
             w.ev("accept", c2s as u64, 0);
+            let sq = w.seq;
+            w.set_changes.push(sq);
+            w.accepts.push((sq, c2s));
             drop(w);
             this.done = true;
             let conn = zlink_core::Connection::new(W::socket(&world, c2s, s2c));
+            world.borrow_mut().conn_ids.push(conn.id());
             return Poll::Ready(Ok(conn));
         }
         w.listener.waker = Some(cx.waker().clone());
@@ -927,6 +951,8 @@ impl SimStream {
         }
         if w.streams[id].ended {
             w.ev("stream.end", id as u64, 0);
+            let sq = w.seq;
+            w.set_changes.push(sq);
             return Poll::Ready(None);
         }
         w.streams[id].waker = Some(cx.waker().clone());
